@@ -715,7 +715,8 @@ def run_c03(ctx):
     cases, runs = [], []
 
     def settings(n_iter):
-        out = [dict(), dict(vtol=1e-3, itol=1e-3), dict(vtol=1e-9, itol=1e-9), dict(vtol=1e-12, itol=1e-4)]
+        # (each tolerance is the tighter one once: a stopping rule that applies one tolerance to both vectors stops early)
+        out = [dict(), dict(vtol=1e-3, itol=1e-3), dict(vtol=1e-9, itol=1e-9), dict(vtol=1e-12, itol=1e-4), dict(vtol=1e-3, itol=1e-10)]
         if n_iter is not None:
             out += [dict(maxiter=m) for m in {0, 1, max(n_iter - 2, 0), max(n_iter - 1, 0), n_iter, n_iter + 1}]
         return out
